@@ -34,10 +34,16 @@ ASSUMPTIONS = [
     "documents are valid (parsed by py_gql.lang.parse and accepted by the default validation rules; NoUnusedVariables is left out "
     "because defect V4 of the unchanged tree reports variables used through nested fragments as unused): fragments acyclic and defined, "
     "unique fragment names, @skip/@include conditions are Boolean literals or variables",
-    "nesting stays far below CPython's recursion limit (Lean fuel exhaustion = RecursionError is not compared)",
+    "named divergence: the model has no interpreter stack. With C19-Q3.patch the DEPTH is not limited by it any more (acyclic chains "
+    "500..3000 levels deep are measured exactly: deep-chain probe); what remains is the nesting WRITTEN in one selection / the fragment "
+    "expansions nested within ONE level beyond CPython's recursion limit (the parser fails first, P1): the rule reports `nested too "
+    "deep to be measured`, the model measures it",
     "type conditions are ignored by the untyped collection and by the specification alike (depth is an upper bound over all runtime types)",
 ]
 TRUSTED = [
+    "with C19-Q3.patch `_nesting_levels` is iterative (a frontier per level, identical selection sets of a level measured once): it is "
+    "modelled by the equivalent recursion `nestingLevelsG` with the same per-level budgets; the equivalence is exercised by the "
+    "correspondence (all streams, deep chains, the exponential-paths document), not proved",
     "the Lean model of the rule is a pure function of (limit, filter, document, variables): that the implementation keeps no state "
     "between calls (instance, Document nodes, module) is checked by the history stream, not proved",
     "harness/corr/C19.py: conversion of the parsed py_gql AST into the minimal JSON document of Driver/C19.lean (checked on every "
@@ -345,6 +351,7 @@ def ref_paths(sels, frags, vs, maxdepth, prefix=()):
 
 
 PATTERNS = [None, "a/*", "*/c", "b"]
+LENIENT_SF = [False]      # set by run(): the tree's `_selected_paths` keeps selections whose condition cannot be evaluated
 
 
 def paths_failure(real, case, document):
@@ -770,7 +777,8 @@ def oracle_failures(real, case, limits=LIMITS, want_valid=True):
                     else:
                         fails.append(("error-order", 0, {"limit": limit, "filter": filt, "flagged": got, "expected": exp}))
                 return fails[:1]
-    if not fails and not (case.unavailable and any(case.unavailable)) and not case.cyclic:
+    # (also with unavailable directive variables: the look-ahead helper must keep the selection, not raise — /repo 4c46ee1)
+    if not fails and not case.cyclic:
         pf = paths_failure(real, case, document)
         if pf:
             return [pf]
@@ -984,34 +992,83 @@ def is_vars_fixed_tree():
     return "coerce_variable_values" in (REPO / "src/py_gql/utilities/max_depth.py").read_text()
 
 
+def lenient_hook(path, funcname):
+    """Does `funcname` (in the source file `path`) call collect_fields_untyped(..., skip_selection=<f>) where <f> is
+       `try: return _skip_selection(node, variables)  except CoercionError: return False` (a condition that cannot be evaluated keeps
+       the selection)? False if no `skip_selection` argument is passed (strict evaluation); raises if the hook has another shape
+       (the model does not cover it: broken obligation)."""
+    import ast as pyast
+    tree = pyast.parse(path.read_text())
+    defs = {n.name: n for n in pyast.walk(tree) if isinstance(n, pyast.FunctionDef)}
+    if funcname not in defs:
+        raise ValueError("%s no longer defines %s" % (path.name, funcname))
+    hook = None
+    for node in pyast.walk(defs[funcname]):
+        if isinstance(node, pyast.Call) and getattr(node.func, "id", None) == "collect_fields_untyped":
+            for kw in node.keywords:
+                if kw.arg == "skip_selection":
+                    if not isinstance(kw.value, pyast.Name):
+                        raise ValueError("%s: skip_selection is not a plain function name" % funcname)
+                    hook = kw.value.id
+    if hook is None:
+        return False
+    if hook not in defs:
+        raise ValueError("%s: hook %s is not defined in %s" % (funcname, hook, path.name))
+    body = [n for n in defs[hook].body if not (isinstance(n, pyast.Expr) and isinstance(getattr(n, "value", None), pyast.Constant))
+            and not isinstance(n, (pyast.Import, pyast.ImportFrom))]
+    ok = (len(body) == 1 and isinstance(body[0], pyast.Try) and len(body[0].body) == 1 and isinstance(body[0].body[0], pyast.Return)
+          and isinstance(body[0].body[0].value, pyast.Call) and getattr(body[0].body[0].value.func, "id", None) == "_skip_selection"
+          and len(body[0].handlers) == 1 and getattr(body[0].handlers[0].type, "id", None) == "CoercionError"
+          and len(body[0].handlers[0].body) == 1 and isinstance(body[0].handlers[0].body[0], pyast.Return)
+          and isinstance(body[0].handlers[0].body[0].value, pyast.Constant) and body[0].handlers[0].body[0].value.value is False
+          and not body[0].orelse and not body[0].finalbody)
+    if not ok:
+        raise ValueError("%s: hook %s is not `try: return _skip_selection(..) except CoercionError: return False`" % (funcname, hook))
+    return True
+
+
 def extract(ctx):
-    """which variant of the rule the tree has (the model follows it): Generated/DepthVariant.lean"""
+    """which variant of the code the tree has (the model follows it): Generated/DepthVariant.lean, re-extracted from the source:
+       the `skip_selection` hooks passed by `_nesting_levels` (max_depth.py) and `_selected_paths` (collect_fields.py), the budget"""
     from common import REPO
     src = (REPO / "src/py_gql/utilities/max_depth.py").read_text()
     if "class MaxDepthValidationRule" not in src:
         raise ValueError("max_depth.py no longer defines MaxDepthValidationRule")
     tolerant = is_tolerant_tree()
     budgeted = is_budgeted_tree()
+    lenient = is_lenient_sf_tree()
     return {"PyGqlModel/Generated/DepthVariant.lean": (
-        "/- GENERATED by harness/corr/C19.py: extract() from src/py_gql/utilities/max_depth.py — do not edit. -/\n"
+        "/- GENERATED by harness/corr/C19.py: extract() from src/py_gql/utilities/{max_depth,collect_fields}.py — do not edit. -/\n"
         "namespace PyGql.Generated.DepthVariant\n\n"
-        "/-- `_nesting_levels` calls `collect_fields_untyped(..., skip_selection=_skip_unless_unknown)` (C19-Q1vars2.patch) -/\n"
+        "/-- `_nesting_levels` calls `collect_fields_untyped(..., skip_selection=<keep when CoercionError>)` (C19-Q1vars2.patch) -/\n"
         "def tolerantSkip : Bool := %s\n\n"
         "/-- the traversal carries a nesting budget and `__call__` reports an exhausted budget (C19-Q2.patch) -/\n"
         "def budgeted : Bool := %s\n\n"
-        "end PyGql.Generated.DepthVariant\n" % ("true" if tolerant else "false", "true" if budgeted else "false"))}
+        "/-- `_selected_paths` calls `collect_fields_untyped(..., skip_selection=<keep when CoercionError>)` (/repo 4c46ee1) -/\n"
+        "def lenientSelectedFields : Bool := %s\n\n"
+        "end PyGql.Generated.DepthVariant\n" % tuple("true" if x else "false" for x in (tolerant, budgeted, lenient)))}
+
+
+def is_lenient_sf_tree():
+    from common import REPO
+    p = REPO / "src/py_gql/utilities/collect_fields.py"
+    if "def _selected_paths" not in p.read_text():
+        return False
+    return lenient_hook(p, "_selected_paths")
 
 
 def is_budgeted_tree():
     from common import REPO
     src = (REPO / "src/py_gql/utilities/max_depth.py").read_text()
-    return "_budget=budget" in src and "except (ExpansionBudgetExhausted" in src
+    return "_budget=budget" in src and ("except (ExpansionBudgetExhausted" in src or "except ExpansionBudgetExhausted" in src)
 
 
 def is_tolerant_tree():
     from common import REPO
-    src = (REPO / "src/py_gql/utilities/max_depth.py").read_text()
-    return bool(re.search(r"skip_selection\s*=\s*_skip_unless_unknown", src)) and "def _skip_unless_unknown" in src
+    p = REPO / "src/py_gql/utilities/max_depth.py"
+    if "def _nesting_levels" not in p.read_text():
+        return False
+    return lenient_hook(p, "_nesting_levels")
 
 
 def is_fixed_tree():
@@ -1041,6 +1098,8 @@ def run(ctx):
     budget0 = ctx.time_left()
     fixed = is_fixed_tree()
     sf_fixed = is_sf_fixed_tree()
+    LENIENT_SF[0] = is_lenient_sf_tree()
+    ctx.extra["selected_fields_directives"] = "lenient (unevaluable condition keeps the selection)" if LENIENT_SF[0] else "strict (CoercionError)"
     vars_fixed = is_vars_fixed_tree()
     ctx.extra["variables_under_test"] = "coerced per operation (C19-Q1vars.patch applied)" if vars_fixed else "raw request variables"
     ctx.extra["selected_fields_under_test"] = "fixed (C19-Q1sf.patch applied)" if sf_fixed else "unchanged (descends into fields[0] only)"
@@ -1163,8 +1222,11 @@ def run(ctx):
     check(case, ("exp", n_exp))
     flush()
 
+    # --- hunt2 C19/1: acyclic fragment chains 500 .. 3000 levels deep ---------------------------------
+    deep_chain_probe(ctx, real, [500, 1200, 3000] if ctx.tier == "quick" else [500, 800, 1000, 1200, 3000])
+
     # --- sampled larger documents ---------------------------------------------------------
-    n = ctx.n(220, 2000)
+    n = ctx.n(220, 1500)
     for j in range(n):
         if ctx.time_left() < 8:
             ctx.notes.append("sampled stream stopped early at %d/%d" % (j, n))
@@ -1383,6 +1445,59 @@ HUNT_CYCLIC = [
 ]
 
 
+def deep_chain(k_frags, per=20):
+    """`{ ...F0 }` + k fragments of `per` nested levels each, every one spreading the next (ACYCLIC; the text is only `per` levels
+       deep): (text, wire document, depth)"""
+    def body(i):
+        inner = [S("F%d" % (i + 1))] if i + 1 < k_frags else [F("c")]
+        for _ in range(per):
+            inner = [F("a", inner)]
+        return inner
+    doc = {"ops": [{"name": None, "sels": [S("F0")]}], "frags": [{"name": "F%d" % i, "sels": body(i)} for i in range(k_frags)]}
+    # levels = k*per nested `a` + the leaf; depth = levels - 1
+    # printed / put on the wire without the (recursive) variable analysis: there are no variables
+    text = "\n".join(["{ ...F0 }"] + ["fragment %s on Query %s" % (f["name"], p_sels(f["sels"])) for f in doc["frags"]])
+    wire = strip(doc)
+    for o in wire["ops"]:
+        o["vd"] = []
+    return text, wire, k_frags * per
+
+
+def deep_chain_probe(ctx, real, depths):
+    """ACYCLIC documents hundreds / thousands of levels deep through fragment chains are measured EXACTLY (no bound on the depth):
+       flagged at limit depth-1, not at depth, not at 100000; never 'unbounded'. (The Python reference is recursive: the expected
+       depth is known by construction.)"""
+    for d in depths:
+        if ctx.time_left() < 6:
+            ctx.notes.append("deep chain probe stopped before depth %d" % d)
+            return
+        text, doc, depth = deep_chain(d // 20)
+        document = real.parse(text)
+        ctx.stat("deep-acyclic-chain")
+        ctx.stat("deep-acyclic-chain-depth=%d" % depth)
+        want = {depth - 1: [0], depth: [], 100000: []}
+        got = {}
+        for limit in want:
+            ctx.count()
+            got[limit] = real.flags(document, {}, limit, None)
+        bad = [l for l in want if got[l] != want[l]]
+        if bad:
+            l = bad[0]
+            kind = ("raises:" + got[l][4:]) if isinstance(got[l], str) else ("over-flagged" if not want[l] else "not-flagged")
+            ctx.fail("%s:deep-acyclic-chain" % kind,
+                     "an acyclic document %d levels deep (through %d fragments of 20 levels) is not measured exactly" % (depth, d // 20),
+                     {"deep_chain_fragments": d // 20, "depth": depth, "limit": l, "flagged": got[l], "expected": want[l]})
+        if ctx.model_ok and is_budgeted_tree():
+            a = ctx.driver.ask([{"op": "check", "doc": doc, "vars": {}, "raw": {},
+                                 "grid": [[None, depth - 1], [None, depth]], "maxdepths": []}])[0]
+            model = a["rulecur"]
+            impl = [got[depth - 1], got[depth]]
+            if model != impl or a.get("spec") != [depth]:
+                ctx.fail("corr:rule:deep-acyclic-chain", "model (exact at every depth) and implementation differ on a deep acyclic chain",
+                         {"deep_chain_fragments": d // 20, "depth": depth, "impl": impl, "model": model, "lean_spec": a.get("spec")},
+                         kind="correspondence")
+
+
 def pipeline_outcome(real, text, vs, name, limit, rule_filter):
     """graphql_blocking(schema, text, variables, validators=[default_validator, MaxDepthValidationRule(limit, operation_name=f)]):
        'executed' | 'rejected-depth' | 'rejected-other' | 'exc:<Class>'; the depth errors are the errors the rule ADDS to those of the
@@ -1545,6 +1660,11 @@ def doc_with_types(doc):
 def replay(ctx, data):
     inp = data.get("input", {})
     real = Real()
+    if "deep_chain_fragments" in inp:
+        text, doc, depth = deep_chain(inp["deep_chain_fragments"])
+        document = real.parse(text)
+        return (real.flags(document, {}, depth - 1, None) == [0] and real.flags(document, {}, depth, None) == []
+                and real.flags(document, {}, 100000, None) == [])
     if inp.get("never_raises_probe"):
         document = real.parse(inp["text"])
         return not any(isinstance(real.flags(document, inp["variables"], l, None, via_validate=v), str)
